@@ -115,6 +115,25 @@ def _check_type(ctx, what, ln, t, tys, Array, List, StaticArray):
             if ab != ln["array_bound"] or lb != ln["list_bound"]:
                 ctx.violation(dict(sig, what="Array/List bound"), ln, [ln["array_bound"], ln["list_bound"]], [ab, lb], clause="Bound(ArrayOf(x))")
                 return
+            # history: the container is built over an element that is changed in place afterwards (its type objects are mutable);
+            # what it reports and serializes must follow the element as it is now. Element: Sum([[]]) -> Sum([[x]]), whose bound is x's.
+            for mk, nm in ((List, "List"), (lambda e: Array(e, 2), "Array")):
+                elem = tys.Sum([[]])
+                cont = mk(elem)
+                cont.type_bound()
+                W.enc_type(cont)
+                elem.variant_rows[0].append(obj)
+                if cont.type_bound().value != expb or W.enc_type(cont).get("bound") != expb:
+                    ctx.violation(dict(sig, what=f"{nm} bound after its element was changed in place"), ln, expb,
+                                  [cont.type_bound().value, W.enc_type(cont).get("bound")], clause="Bound(ListOf / ArrayOf(x)) follows x")
+                    return
+            # the size does not enter the bound: empty arrays and arrays of symbolic length too
+            for size, how in ((0, "size 0"), (tys.VariableArg(0, tys.BoundedNatParam()), "symbolic size")):
+                a0 = Array(obj, size)
+                if a0.type_bound().value != ln["array_bound"] or W.enc_type(a0).get("bound") != ln["array_bound"]:
+                    ctx.violation(dict(sig, what=f"Array bound ({how})"), ln, ln["array_bound"], [a0.type_bound().value, W.enc_type(a0).get("bound")],
+                                  clause="Bound(ArrayOf(x)) independent of the size argument")
+                    return
             ae = W.enc_type(Array(obj, 2))
             if W.canon(ae) != W.canon(W.from_tla(ln["array_enc"])):
                 ctx.violation(dict(sig, what="Array encoding"), ln, ln["array_enc"], ae, clause="Desugar(ArrayOf(x))")
@@ -150,5 +169,14 @@ def _check_type(ctx, what, ln, t, tys, Array, List, StaticArray):
                 if not (t["t"] == "Sum" and t["s"] == "Unit") else (obj == gen and gen == obj and obj.type_bound() == gen.type_bound())):
             ctx.violation(dict(sig, what="sugar = general"), ln, "equal, same bound and encoding", "differs", clause="Sugar(x) = General(x)")
             return
+    if t["t"] == "Either":
+        # Either(left: Iterable[Type], right: Iterable[Type]): tuples and one-shot iterators denote the same type as lists
+        for how, mk in (("tuples", tuple), ("one-shot iterators", iter)):
+            alt = tys.Either(mk(W.build_row(t["left"])), mk(W.build_row(t["right"])))
+            gen = W.build_type(t, general=True)
+            if not (alt == obj and obj == alt and alt == gen and gen == alt and W.canon(W.enc_type(alt)) == W.canon(enc_exp)
+                    and alt.type_bound() == obj.type_bound() and ('"Ext"' in json.dumps(t) or W.dec_type(W.enc_type(alt)) == alt)):
+                ctx.violation(dict(sig, what=f"Either built from {how}"), ln, "the same type as from lists", W.enc_type(alt), clause="Sugar(x) = General(x) (Iterable arguments)")
+                return
     if '"Ext"' not in json.dumps(t) and not (back == obj):   # extension types come back in their opaque form
         ctx.violation(dict(sig, what="decoded equals original"), ln, "equal", "not equal", clause="Dec(Enc(x)) = x")
